@@ -265,6 +265,23 @@ func collectStepAttrs(b *world.BodySpec, out map[string]bool, depth int) {
 	}
 }
 
+// anyObjectTypes: the types of the any-expressions of object type anywhere in a constraint.
+func anyObjectTypes(c *world.ConsSpec, out *[]string, depth int) {
+	if c == nil || depth > 8 {
+		return
+	}
+	if c.K == "any" && strings.Contains(c.Type, "object(") {
+		*out = append(*out, c.Type)
+	}
+	anyObjectTypes(c.Elem, out, depth+1)
+	for _, e := range c.Elems {
+		anyObjectTypes(e, out, depth+1)
+	}
+	for _, a := range c.Attrs {
+		anyObjectTypes(a.Cons, out, depth+1)
+	}
+}
+
 func hasKValue(e *world.Expr, k string) bool {
 	if e == nil {
 		return false
@@ -405,17 +422,30 @@ func (o *C19) Check(x *h.Exec, ev *h.Event) {
 						// a key the type does not declare: native syntax decodes the object
 						// item by item and skips that one, JSON (no structural access)
 						// reports every variable - precision the statement leaves open
-						if a != nil && a.Cons != nil && a.Cons.K == "any" && strings.Contains(a.Cons.Type, "object(") {
-							it.Attr.Expr.Walk(func(e *world.Expr) {
-								if e.K != "obj" {
-									return
-								}
-								for _, k := range e.Keys {
-									if (k.K == "str" || k.K == "kw") && !strings.Contains(a.Cons.Type, k.S+"=") {
-										certain = false
+						if a != nil && a.Cons != nil {
+							var objTypes []string
+							anyObjectTypes(a.Cons, &objTypes, 0)
+							if len(objTypes) > 0 {
+								it.Attr.Expr.Walk(func(e *world.Expr) {
+									if e.K != "obj" {
+										return
 									}
-								}
-							})
+									for _, k := range e.Keys {
+										if k.K != "str" && k.K != "kw" {
+											continue
+										}
+										declared := false
+										for _, t := range objTypes {
+											if strings.Contains(t, k.S+"=") {
+												declared = true
+											}
+										}
+										if !declared {
+											certain = false
+										}
+									}
+								})
+							}
 						}
 					}
 				}
